@@ -1,4 +1,4 @@
-import NeumannModel.Durable.Session
+import NeumannModel.Durable.Failing
 /-
   C02 — "Durable store: acknowledged writes survive any crash, in order".
   ONLY the property theorems and their non-vacuity examples; the definitions used by the
@@ -396,6 +396,101 @@ example :
                  .op (.put [4] ⟨[4], none⟩), .sync, .op (.put [5] ⟨[5], none⟩)]
     let w := (acts.foldl (Sys.act (fun _ => 0) toyEnc) (Sys.fresh (.batched 3))).wal
     w.pending = 1 ∧ w.syncedLen = 56 ∧ w.file.length = 70 := by
+  decide +kernel
+
+/-! ### appends that fail -/
+
+/-- **A write that returned an error is never visible after a crash, whatever fails.**
+    `put_durable` / `delete_durable` append their records one by one and return the first append
+    error (`SizeLimitExceeded` under `auto_rotate = false`, an I/O error) before touching memory.
+    For EVERY failure pattern (`plan`: for each operation, `none` = all its records are appended,
+    `some t` = the append of record `t` fails), every operation list over every key class and
+    value, and every crash cut `n`: recovery succeeds and `get` on the recovered store answers, for
+    every key outside the `_cache:` class, exactly what the first `k` operations THAT RETURNED `Ok`
+    wrote — although the log holds orphan strict prefixes of the records of the failed ones
+    (an `EmbeddingSet` without its `MetadataSet`; `EmbeddingDelete` + `EntityRemove` without their
+    `MetadataDelete`) in the middle — and every `Ok` operation whose records lie wholly before
+    the cut is among them. -/
+theorem failed_writes_are_invisible (hc : CodecOK crc enc dec) (plan : List (Op × Option Nat)) (n : Nat)
+    (hfit : Fits enc (runOpsF Store.empty plan).1) :
+    ∃ k r, k ≤ (runOpsF Store.empty plan).2.2.length ∧
+      recover crc dec none ((logBytes crc enc (runOpsF Store.empty plan).1).take n) = .ok r ∧
+      FullEq r (specRun [] ((runOpsF Store.empty plan).2.2.take k)) ∧
+      ∀ a, a ≤ plan.length →
+        (logBytes crc enc (runOpsF Store.empty (plan.take a)).1).length ≤ n →
+        (runOpsF Store.empty (plan.take a)).2.2.length ≤ k := by
+  have hplain := runOpsF_plain Store.empty plan
+  have hno : NoTx (runOpsF Store.empty plan).1 := fun e he => (hplain e he).1
+  obtain ⟨k, hk, hrep, hgrp⟩ := group_prefixF Store.empty plan
+    (wholeWithin crc ((runOpsF Store.empty plan).1.map enc) n)
+  have hrec := recover_take_plain hc none _ n hfit hno
+  have hpl := afterLastCkpt_append_plain []
+    ((runOpsF Store.empty plan).1.take (wholeWithin crc ((runOpsF Store.empty plan).1.map enc) n))
+    (fun e he => (hplain e (List.mem_of_mem_take he)).2)
+  rw [List.nil_append, afterLastCkpt_nil, List.nil_append] at hpl
+  refine ⟨k, _, hk, hrec, ?_, ?_⟩
+  · apply good_fullEq
+    · rw [hpl]
+      exact good_replayF_take good_empty good_empty.nodup (simle_refl _) plan _
+    · rw [replay_md, hpl]
+      show MetaEq (replayMeta Store.empty.md _) _
+      rw [hrep]
+      exact MetaEq.refl _
+  · intro a ha hlen
+    apply hgrp a ha
+    obtain ⟨rest, hrest⟩ := runOpsF_take_prefix Store.empty plan a
+    apply wholeWithin_ge crc _ _ n (by rw [hrest]; simp)
+    rw [← List.map_take, hrest, List.take_left']
+    · exact hlen
+    · rfl
+
+/-- **The `auto_rotate = false` writer is such a session**: running any operation list through
+    `Sys.opLim` (every record that would take the file beyond `max_size_bytes` is refused) leaves
+    the log and the memory of `runOpsF` for some failure pattern — so
+    `failed_writes_are_invisible` applies to every size limit. -/
+theorem size_limited_session_is_a_plan (maxSize : Nat) (sy : Sys) (ops : List Op) :
+    ∃ plan : List (Op × Option Nat), plan.map (·.1) = ops ∧
+      (ops.foldl (Sys.opLim crc enc maxSize) sy).wal.file
+        = sy.wal.file ++ logBytes crc enc (runOpsF sy.mem plan).1 ∧
+      (ops.foldl (Sys.opLim crc enc maxSize) sy).mem = (runOpsF sy.mem plan).2.1 := by
+  induction ops generalizing sy with
+  | nil => exact ⟨[], rfl, by simp [runOpsF_nil, logBytes_nil], rfl⟩
+  | cons o ops ih =>
+    obtain ⟨plan, hp, hf, hm⟩ := ih (Sys.opLim crc enc maxSize sy o)
+    obtain ⟨hle, hfile⟩ := logLim_spec crc enc sy.mode maxSize sy.wal (step sy.mem o).1
+    refine ⟨(o, some (logLim crc enc sy.mode maxSize sy.wal (step sy.mem o).1).2) :: plan, by simp [hp], ?_, ?_⟩
+    · rw [List.foldl_cons, hf, runOpsF_cons]
+      simp only []
+      rw [logBytes_append, stepF_fst_take _ _ _ hle, ← List.append_assoc, ← hfile]
+      rfl
+    · rw [List.foldl_cons, hm, runOpsF_cons]
+      rfl
+
+/-- **A failed `put_durable` leaves its key in the entity index** (candidate finding
+    `tensor_store.slab_router.put_durable/failed_put_leaves_entity_index_entry`; `failMem` = the
+    code as it is): `put_durable emb:a` with a vector whose very first append is refused.  The
+    operation returns an error and no record is logged, but `index.get_or_create(key)` ran before
+    the append: on the LIVE store `exists` says true and `scan` lists a key that no successful write
+    created and that `get` rejects — `scan_lists_only_readable_keys` does not extend to sessions
+    with failing appends; a later checkpoint persists the entry.  (After a crash WITHOUT a
+    checkpoint the entry is gone: `failed_writes_are_invisible`.) -/
+theorem failed_put_leaves_index_entry_witness :
+    let ka := [101, 109, 98, 58, 97]
+    let plan : List (Op × Option Nat) := [(Op.put ka ⟨[1], some [1, 2, 3, 4]⟩, some 0)]
+    let L := (runOpsF Store.empty plan).2.1
+    (runOpsF Store.empty plan).1 = [] ∧ (runOpsF Store.empty plan).2.2 = [] ∧
+    exists_ L ka = true ∧ ka ∈ scanKeys L ∧ get L ka = none ∧
+    recover (fun _ => 0) toyDec (some L) [] = .ok L := by
+  decide +kernel
+
+/-- non-vacuity of `failed_writes_are_invisible`: a failed delete in the middle (its
+    `EmbeddingDelete` and `EntityRemove` records logged, the `MetadataDelete` refused) followed
+    by a successful put: 2 of the 3 operations returned `Ok`, 5 records in the log -/
+example :
+    let ka := [101, 109, 98, 58, 97]
+    let plan : List (Op × Option Nat) :=
+      [(Op.put ka ⟨[1], some [1, 2, 3, 4]⟩, none), (Op.delete ka, some 2), (Op.put [98] ⟨[2], none⟩, none)]
+    (runOpsF Store.empty plan).1.length = 5 ∧ (runOpsF Store.empty plan).2.2.length = 2 := by
   decide +kernel
 
 /-! ### the Bloom-filtered store -/
